@@ -25,6 +25,10 @@ func init() {
 		lim := syscall.Rlimit{Cur: gib << 30, Max: gib << 30}
 		syscall.Setrlimit(syscall.RLIMIT_AS, &lim)
 	}
+	if os.Getenv("GOMEMLIMIT") == "" {
+		// soft limit: collect more eagerly long before the hard cap
+		debug.SetMemoryLimit(3 << 30)
+	}
 	if os.Getenv("GOTRACEBACK") == "" {
 		// a crash report should end with the goroutine that crashed, not with
 		// hundreds of parked ones
